@@ -54,6 +54,14 @@ def cases(tier):
                         # bonds are propagated by the one-site scheme, so nothing may be truncated
                         if d == 2:
                             yield {'dims': list(dims), 'H': hk, 'r': rk, 'h': 0.05, 'nz': 0, 'nsteps': 2, 'schmidt': True}
+                    # the same problem in other units: H scaled by 1e-20, step by 1e20 (every entry of H, of the effective operators
+                    # and of their imaginary parts is tiny in absolute terms; the flow is the same)
+                    if list(rk) == max_ranks(list(dims)) or hk.startswith('local'):
+                        yield {'dims': list(dims), 'H': hk, 'r': rk, 'h': 0.3, 'nz': 0, 'hscale': 1e-20}
+                    # a hand-written product state with a REAL first core and complex later cores (unit-norm cores: right-orthonormal
+                    # as it stands), under an operator whose cores are real
+                    if max(rk) == 1 and d >= 2 and hk in ('dense-real', 'local-real'):
+                        yield {'dims': list(dims), 'H': hk, 'r': rk, 'h': 0.3, 'nz': 0, 'x0': 'prod-headreal'}
                     # a REAL initial state (the flow is complex all the same)
                     yield {'dims': list(dims), 'H': hk, 'r': rk, 'h': 0.3, 'nz': 0, 'x0': 'real'}
 
@@ -163,6 +171,8 @@ def run_case(case, seed):
     dims, kind, rk, h, nz = case['dims'], case['H'], case['r'], case['h'], case['nz']
     d = len(dims); N = int(np.prod(dims))
     op, H = make_H(rng, dims, kind)
+    if case.get('hscale'):
+        op = case['hscale'] * op; H = case['hscale'] * H; h = h / case['hscale']
     x0t = tt_from(rand_cores(rng, dims, [1] * d, rk, case.get('x0') != 'real'))
     if case.get('schmidt'):
         from scikit_tt.tensor_train import TT as _TT
@@ -175,6 +185,10 @@ def run_case(case, seed):
         x0t = _TT([(qa * sv_).reshape(1, dims[0], 1, k_), qb.T.reshape(k_, dims[1], 1, 1)])
     x0t = (1.0 / x0t.norm()) * x0t
     x0t.ortho_right()
+    if case.get('x0') == 'prod-headreal':
+        from scikit_tt.tensor_train import TT as _TT2
+        cs_ = rand_cores(rng, dims, [1] * d, [1] * (d + 1), 'tail')
+        x0t = _TT2([c_ / np.linalg.norm(c_) for c_ in cs_])
     x0 = vec(x0t)
     sO, sX = snap(op), snap(x0t)
     r.nontrivial = d >= 2
